@@ -1,5 +1,6 @@
 CFG = {
-    "jobs": lambda tier: [J("scaled", "c12"), J("prod", "c12-cli", needs_repo_bins=["mlar"])],
+    "jobs": lambda tier: [J("scaled", "c12", imports="Base Stream Inst Run RunHistStack"), J("prod", "c12-cli", needs_repo_bins=["mlar"])],
+    "run_modules": ["RunHistStack"],
     "rule": "scaled constants: generated archives (as C01) read fully, then linear extraction into the subsets {empty, each singleton, all in "
             "reverse order, one random subset}; plus layer-less archives whose data part is cut at every 5th (quick) / every (thorough) position "
             "before and after the end-of-data marker with the footer kept (so that the archive still opens); non-trivial = content present or a cut; "
